@@ -47,7 +47,7 @@ func newNTSWorld(r *simcore.Run, nlisten int) *ntsWorld {
 }
 
 func (w *ntsWorld) startKE(cert tls.Certificate) {
-	lst, err := w.net.ListenStream(fmt.Sprintf("%s:%d", ipSrvIP, kePort), nil)
+	lst, err := w.net.ListenStream(hp(ipSrvIP, kePort), nil)
 	if err != nil {
 		panic(err)
 	}
